@@ -51,8 +51,13 @@ def decMCmd : Dec MCmd := do
   let subRequired ← decBit
   let args ← listOf decMArg
   let subs ← listOf decMSub
+  let ovTitle ← optB
+  let ovSection ← optB
+  let ovDate ← optB
+  let ovSource ← optB
+  let ovManual ← optB
   pure { name, displayName, binName, about, longAbout, version, longVersion, author, afterHelp, afterLongHelp, subHeading,
-         subValueName, subRequired, args, subs }
+         subValueName, subRequired, args, subs, ovTitle, ovSection, ovDate, ovSource, ovManual }
 
 /-- `man CMD…` → `OK <hex of the page>` | `PANIC` -/
 def handleMan (args : List String) : Option String :=
